@@ -239,8 +239,8 @@ def strip(rec):
 def state_snapshot():
     from compiler.front_end import glue, module_ir
     return {"counter": module_ir._anonymous_name_counter,
-            "cache_keys": sorted(hashlib.sha1((k[0] + "\0" + k[1]).encode("utf-8", "surrogatepass")).hexdigest()[:12] + ":" + k[1]
-                                 for k in glue._cached_modules)}
+            "cache_keys": sorted(hashlib.sha1(repr(k).encode("utf-8", "surrogatepass")).hexdigest()[:12] for k in glue._cached_modules),
+            "cache_key_shape": sorted({(type(k).__name__, len(k) if isinstance(k, tuple) else 0) for k in glue._cached_modules})}
 
 
 def run_batch(jobs, want=()):
